@@ -91,7 +91,7 @@ PROPS = {
         history_components=[],
         extra_suites=[suites.meshgen_suite],
         assumptions=["blends in [0,1] (the undocumented span_cos_spacing == 2 branch is not modelled)",
-                     "CRM planform data, multi-section stitching and unify_mesh are evaluated on the real code by the oracle, not modelled"],
+                     "unify_mesh is modelled (Unify.lean, compared exactly with the real function, detached sections and both shift settings included); CRM planform data and the multi-section mesh generator (geometry_mesh_gen.py) are evaluated on the real code by the oracle, not modelled"],
     ),
     "C20": dict(
         components=[],
